@@ -201,6 +201,8 @@ def sync_tree(src, dst, keep=()):
             sp = os.path.join(root, f)
             dp = os.path.normpath(os.path.join(dst, rel, f))
             want.add(dp)
+            if dp in keep:
+                continue   # written separately (api/mod.rs gets lines appended); do not touch its mtime
             data = open(sp, "rb").read()
             if not os.path.exists(dp) or open(dp, "rb").read() != data:
                 os.makedirs(os.path.dirname(dp), exist_ok=True)
@@ -502,7 +504,7 @@ def part_b(ctx, tab):
     ce = {c["name"]: c for c in tab["cenums"]}
     rm = {m["name"]: {l["name"]: l for l in m["leaves"]} for m in tab["rmaps"]}
     nsh = 16
-    ncases = 2400 if ctx.thorough() else 160
+    ncases = 1200 if ctx.thorough() else 96
     maxops = 80 if ctx.thorough() else 40
     jobs = []
     for kind in ("pubsub", "event", "reqres"):
@@ -511,7 +513,7 @@ def part_b(ctx, tab):
 
     def one(job):
         kind, argv = job
-        rc, out = vlib.sh(" ".join(argv) + " 2>/dev/null", timeout=2400)
+        rc, out = vlib.sh(" ".join(argv) + " 2>/dev/null", timeout=3300)
         return kind, argv, rc, out
 
     stats = {"cases": 0, "mode_runs": 0, "ops": 0, "mismatches": 0, "left_behind": 0}
